@@ -141,6 +141,9 @@ def gen_scenarios(rng, *, per_workload, every):
                     continue
                 lead = rng.choice([0.0, 0.0, 0.02, 0.2])
                 scs.append(dict(b, stop_at=t, cond=cond, lead=lead))
+            # orderly closes by the broker (EOF instead of a reset), shortly before or at the stop
+            scs.append(dict(b, stop_at=t, cond=rng.choice([["reap"], ["shutdown", 0], ["shutdown", 1]]),
+                            lead=rng.choice([0.0, 0.001, 0.02, 0.2])))
             # conditions that need time to develop before the stop
             if b["workload"] == "txn":
                 scs.append(dict(b, stop_at=t, cond=["fence"], lead=rng.choice([0.05, 0.3, 0.6])))
@@ -151,7 +154,7 @@ def gen_scenarios(rng, *, per_workload, every):
     return scs, npoints
 
 
-UNREACH = ("down", "blackhole", "alldown", "allblack")
+UNREACH = ("down", "shutdown", "blackhole", "alldown", "allblack")
 
 
 def classify(sc, trace, v):
@@ -174,6 +177,10 @@ def classify(sc, trace, v):
         if ev.get("err") == "Hang" and sc["workload"] == "txn" and sc["cond"][0] in UNREACH and \
                 any(t.startswith("Sender._do_") for t in ev.get("tasks", [])):
             return "reject:StopReturn:Hang:txn-request-unreachable-coordinator"
+    if e == "End" and ev.get("still_member") and sc["workload"] == "group" and sc["cond"][0] == "reap" and sc.get("lead", 0) <= 0.02:
+        # open finding: the brokers closed the consumer's connections at the very instant of stop(); the first request of
+        # close() fails, the coordinator is marked dead and the (best-effort) LeaveGroup is skipped although a reconnect would succeed
+        return "reject:End:coordinator-connection-closed-by-broker-at-stop"
     if e == "CloseStep":
         extra = f":{ev.get('comp')}:{ev.get('phase')}:{ev.get('err') or 'tasks-left'}"
     if e == "Api":
